@@ -199,6 +199,16 @@ def run(run):
                     c_no = concepts.Context(pc.objects, pc.properties, pc.bools)
                     c_no.tojson(path, ignore_lattice=True)
                     check('json file without lattice', concepts.Context.fromjson(path), need_lattice=False)
+                # defaults on a context whose lattice was never asked for: todict() / tojson() include the lattice
+                c_fresh = concepts.Context(pc.objects, pc.properties, pc.bools)
+                fbuf = io.StringIO()
+                c_fresh.tojson(fbuf)
+                if 'lattice' not in json.loads(fbuf.getvalue()):
+                    run.fail('tojson() of a context whose lattice was not computed yet lacks the lattice', fbuf.getvalue()[:200], None, [pc.line], extra)
+                check('json text of a fresh context', concepts.Context.fromjson(io.StringIO(fbuf.getvalue()), require_lattice=True))
+                c_fresh2 = concepts.Context(pc.objects, pc.properties, pc.bools)
+                if 'lattice' not in c_fresh2.todict():
+                    run.fail('todict() of a context whose lattice was not computed yet lacks the lattice', None, None, [pc.line], extra)
                 # python literal: lattice lazily present
                 c_lazy = concepts.Context(pc.objects, pc.properties, pc.bools)
                 s_without = c_lazy.tostring('python-literal')
@@ -220,6 +230,12 @@ def run(run):
                 for proto in (2, pickle.HIGHEST_PROTOCOL):
                     L2 = pickle.loads(pickle.dumps(ctx.lattice, proto))
                     check('pickle lattice proto %d' % proto, None, lattice=L2)
+                    L0 = ctx.lattice
+                    for sl in (slice(None), slice(1, 3), slice(0, 0), slice(None, None, -1)):
+                        if type(L2[sl]) is not type(L0[sl]) or [c.index for c in L2[sl]] != [c.index for c in L0[sl]]:
+                            run.fail('slice %r of an unpickled lattice' % (sl,), repr(type(L2[sl])), repr(type(L0[sl])), [pc.line], extra)
+                    if len(L2) != len(L0) or L2[-1].index != L0[-1].index or (L2[0] in L2) != (L0[0] in L0):
+                        run.fail('len / negative index / membership of an unpickled lattice', None, None, [pc.line], extra)
                 if len(fresh_items) < (60 if run.tier == 'quick' else 400) and count % 3 == 0:
                     fresh_items.append((tab, 'context', pickle.dumps(ctx), list(pc.objects), list(pc.properties)))
                     fresh_expect.append((pc.line, base))
